@@ -134,13 +134,15 @@ var specs = map[string]propSpec{
 	},
 	"C07": {
 		Units: []unitSpec{
-			{Name: "rapid-comparisons", Test: "TestC07Rapid", Rapid: true, QuickChecks: 60000, ThoroughChecks: 700000, QuickShards: 4, ThoroughShards: 16},
+			{Name: "rapid-comparisons", Test: "TestC07Rapid", Rapid: true, QuickChecks: 60000, ThoroughChecks: 700000, QuickShards: 4, ThoroughShards: 14},
+			{Name: "enum-operand-matrix", Test: "TestC07Matrix", QuickShards: 2, ThoroughShards: 2},
 		},
 		Assumptions: refAssumptions("only the operand type pairs the statement lists are generated (number/string and boolean/any comparisons, relational operators on strings are not asserted)"),
 	},
 	"C08": {
 		Units: []unitSpec{
-			{Name: "rapid-arithmetic", Test: "TestC08Rapid", Rapid: true, QuickChecks: 80000, ThoroughChecks: 800000, QuickShards: 4, ThoroughShards: 16},
+			{Name: "rapid-arithmetic", Test: "TestC08Rapid", Rapid: true, QuickChecks: 80000, ThoroughChecks: 800000, QuickShards: 4, ThoroughShards: 15},
+			{Name: "enum-number-format-grid", Test: "TestC08FormatGrid", QuickShards: 1, ThoroughShards: 1},
 		},
 		Assumptions: refAssumptions("both sides perform the same IEEE 754 operations in the same order, so float64 results are compared exactly", "mod only on non-negative integers with a non-zero divisor; sum() only over numeric nodes; round() is not part of the statement"),
 	},
